@@ -9,6 +9,7 @@ from typing import (
     List,
     Optional,
     Protocol,
+    Set,
     Tuple,
     Union,
     cast,
@@ -123,18 +124,33 @@ def resolve1(x: object, default: object = None) -> Any:
     return x
 
 
-def resolve_all(x: object, default: object = None) -> Any:
+def resolve_all(
+    x: object,
+    default: object = None,
+    _enclosing: Optional[Set[int]] = None,
+) -> Any:
     """Recursively resolves the given object and all the internals.
 
     Make sure there is no indirect reference within the nested object.
     This procedure might be slow.
     """
     x = resolve1(x, default=default)
-    if isinstance(x, list):
-        x = [resolve_all(v, default=default) for v in x]
-    elif isinstance(x, dict):
-        for k, v in x.items():
-            x[k] = resolve_all(v, default=default)
+    if isinstance(x, (list, dict)):
+        if _enclosing is None:
+            _enclosing = set()
+        key = id(x)
+        if key in _enclosing:
+            # an array or dictionary that contains itself has no finite value
+            return default
+        _enclosing.add(key)
+        try:
+            if isinstance(x, list):
+                x = [resolve_all(v, default, _enclosing) for v in x]
+            else:
+                for k, v in x.items():
+                    x[k] = resolve_all(v, default, _enclosing)
+        finally:
+            _enclosing.discard(key)
     return x
 
 
